@@ -315,11 +315,16 @@ class Analyzer(object):
                 sh = True
                 if isinstance(recv, ast.Name) and recv.id in locals_ and fresh.get(recv.id, False):
                     sh = False
+                if isinstance(recv, ast.Call) and isinstance(recv.func, ast.Name) and isinstance(fi.g.get(recv.func.id), type) \
+                        and recv.func.id not in locals_:
+                    sh = None          # the receiver is a constructor call: a fresh object nobody else can reach
                 names = [n.id for n in ast.walk(recv) if isinstance(n, ast.Name)]
                 if isinstance(recv, ast.Name) and recv.id in locals_ and not fresh.get(recv.id, False):
                     # local bound to an expression over module-level objects?
                     sh = True
                 if not any((nm in locals_ and not fresh.get(nm, False)) or is_module_obj(nm) for nm in names) and not sh:
+                    sh = False
+                if sh is None:
                     sh = False
                 obj = fi.g.get(recv.id) if isinstance(recv, ast.Name) and recv.id not in locals_ else None
                 if isinstance(obj, types.ModuleType):
